@@ -7,7 +7,7 @@ from ..workloads import table
 
 SHARDS = {"quick": 1, "thorough": 1}
 FLOORS = (900, 800)
-FLOOR_REL = 2e-5
+FLOOR_REL = 1e-9  # float noise of exactly written rows (tolerance 0); the written-precision term does the real work
 K_TOL = 16.0
 
 
